@@ -42,6 +42,9 @@ type opT struct {
 	DocRef   int      `json:"doc_ref"` // call: use (and keep) the document OBJECT of slot doc_ref instead of building a fresh one (0 = fresh)
 	Rename   []string `json:"rename"`  // call with doc_ref: before the call, rename this member of the kept root object in place (hex from, hex to)
 	AllFail  bool     `json:"allfail"` // parse/retrieve without cfg_ref: register every name of filters/aggs with a function that always fails
+	CopyOf   int      `json:"copy_of"` // parse/retrieve: the Config is a VALUE COPY of the Config of operation number copy_of-1, on which add_filters / add_aggs are then registered
+	AddFilters []string `json:"add_filters"`
+	AddAggs    []string `json:"add_aggs"`
 	Burn     int      `json:"burn"`    // parse/retrieve: before the call, Parse the path `$` this many times (tens of thousands of unrelated calls in between)
 }
 
@@ -56,6 +59,7 @@ type caseT struct {
 	Docs    []docT   `json:"docs"`
 	Pre     string   `json:"pre_hex"` // a path parsed (result ignored) right before the case: ambient history
 	Alias   bool     `json:"alias"`   // build equal sub-containers of a document as ONE shared Go object
+	Packed  int      `json:"packed"`  // > 0: carve all arrays of a document out of ONE backing array, in an order derived from this number
 	Ops     []opT    `json:"ops"`
 	// conc
 	Threads int `json:"threads"`
